@@ -114,6 +114,29 @@ class _Simp(ast.NodeTransformer):
         return node
     visit_ListComp = _comp
 
+    def _empty_iter(self, node):
+        """a comprehension over an empty display is empty"""
+        self.generic_visit(node)
+        it = node.generators[0].iter
+        if (isinstance(it, (ast.List, ast.Tuple, ast.Set)) and not it.elts) or (isinstance(it, ast.Dict) and not it.keys):
+            if isinstance(node, ast.DictComp):
+                return ast.copy_location(ast.Dict(keys=[], values=[]), node)
+            if isinstance(node, ast.SetComp):
+                return ast.copy_location(ast.Call(func=ast.Name(id="set", ctx=ast.Load()), args=[], keywords=[]), node)
+        return node
+    visit_DictComp = visit_SetComp = _empty_iter
+
+    def visit_Call(self, node):
+        self.generic_visit(node)
+        # len of a display without unpacking
+        if isinstance(node.func, ast.Name) and node.func.id == "len" and len(node.args) == 1 and not node.keywords:
+            a = node.args[0]
+            if isinstance(a, (ast.List, ast.Tuple, ast.Set)) and not any(isinstance(x, ast.Starred) for x in a.elts) and (not isinstance(a, ast.Set) or len(a.elts) <= 1):
+                return ast.copy_location(ast.Constant(len(a.elts)), node)
+            if isinstance(a, ast.Dict) and not a.keys:
+                return ast.copy_location(ast.Constant(0), node)
+        return node
+
     def visit_Subscript(self, node):
         self.generic_visit(node)
         # [a, b][0] -> a   (also for the i-th item of a written-out generator, as produced by unpacking it)
@@ -278,6 +301,8 @@ class Summariser:
         if not raw and (isinstance(e2, ast.BoolOp) or (isinstance(e2, ast.UnaryOp) and isinstance(e2.op, ast.Not))):
             self._test(e2, p, cont_true, cont_false, True)
             return
+        if any(isinstance(n, (ast.DictComp, ast.SetComp)) or (isinstance(n, ast.Call) and isinstance(n.func, ast.Name) and n.func.id == "len") for n in ast.walk(e2)):
+            e2 = _Simp().visit(copy.deepcopy(e2))       # (substituted displays: a comprehension over an empty one, the length of one)
         ip = e2 if isinstance(e2, ast.Call) and u(e2.func) == "isinstance" and len(e2.args) == 2 and not e2.keywords else None
         if ip is not None and (isinstance(ip.args[1], ast.Tuple) or (isinstance(ip.args[1], ast.BinOp) and isinstance(ip.args[1].op, ast.BitOr))):
             # isinstance(x, A | B) is isinstance(x, A) or isinstance(x, B): one class per test, like the arms of a match
@@ -650,6 +675,17 @@ def _const_truth(t):
             return a is not b
         if isinstance(op, ast.Eq):
             return a == b
+        if isinstance(op, ast.NotEq):
+            return a != b
+        if type(a) is int and type(b) is int:
+            if isinstance(op, ast.Lt):
+                return a < b
+            if isinstance(op, ast.LtE):
+                return a <= b
+            if isinstance(op, ast.Gt):
+                return a > b
+            if isinstance(op, ast.GtE):
+                return a >= b
     if isinstance(t, ast.Constant) and not isinstance(t.value, str):
         return bool(t.value)
     return None
